@@ -1,6 +1,7 @@
 use crate::ctx::Shard;
 
 pub mod c04;
+pub mod c06;
 pub mod c07;
 pub mod c08;
 pub mod c10;
@@ -10,6 +11,7 @@ pub mod c12;
 pub fn dispatch(engine: &str, sh: &mut Shard) -> bool {
     match engine {
         "c04" => c04::run(sh),
+        "c06" => c06::run(sh),
         "c07" => c07::run(sh),
         "c08" => c08::run(sh),
         "c10" => c10::run(sh),
